@@ -898,6 +898,40 @@ pub fn expr(r: &mut Rng, count: usize, out: &mut Out) {
         let half_mod = 1u64 << (w - 1);
         let mask = if w == 64 { u64::MAX } else { (1u64 << w) - 1 };
         let mut depth = 0usize;
+        if r.chance(1, 4) {
+            // cluster: a sum of 3..6 monomials over the same (deduplicated) variable set with differing
+            // powers, coefficients around 0, 1, -1 and the half modulus, then `norm`
+            let vars: Vec<i64> = if r.chance(1, 2) { vec![r.range(-1, 2)] } else { vec![0, 1] };
+            let k = 3 + r.below(4);
+            for m in 0..k {
+                let c = match r.below(9) {
+                    0 | 1 => 1,
+                    2 => mask,
+                    3 => half_mod,
+                    4 => half_mod + 1,
+                    5 => half_mod - 1,
+                    6 => 2,
+                    7 => mask - 1,
+                    _ => r.next() & mask,
+                };
+                req.push_str(&format!(" v:{c}"));
+                for v in &vars {
+                    for _ in 0..1 + r.below(3) {
+                        req.push_str(&format!(" x:{v} {}", if r.chance(1, 2) { "mul" } else { "mulv" }));
+                    }
+                }
+                if m > 0 {
+                    req.push_str(" add");
+                }
+            }
+            req.push_str(" norm");
+            if r.chance(1, 3) {
+                req.push_str(" half norm");
+            }
+            out.stat("cluster");
+            emit(out, req, exec_expr);
+            continue;
+        }
         for _ in 0..n {
             let choice = if depth < 2 { r.below(2) } else { 2 + r.below(13) };
             match choice {
